@@ -260,7 +260,7 @@ func (e *Engine) Bin(world string, race bool) string {
 
 // ---- sampling
 
-var ops = []string{"echoJSON", "echoJSON", "echoJSONStream", "echoForm", "echoMultipart", "echoStream", "variants", "secure", "secure2", "echoWild", "echoParams", "echoParams", "echoShapes", "echoShapes"}
+var ops = []string{"echoJSON", "echoJSON", "echoJSONStream", "echoForm", "echoMultipart", "echoStream", "variants", "secure", "secure2", "echoWild", "echoParams", "echoParams", "echoShapes", "echoShapes", "echoSeg"}
 var invalids = []string{"pattern", "regexp2", "multipleOf", "maxLength", "enum", "tagpattern"}
 var readers = []string{"bytes", "bytes", "onebyte", "dataerr", "half"}
 var creds = []string{"header", "basic+query", "bearer", "header", "none", "wrong"}
@@ -287,7 +287,7 @@ var worldRoutes = []struct {
 	{"echoJSON", "POST", []string{"echo", "json", "*"}}, {"echoJSONStream", "POST", []string{"echo", "jsonstream"}}, {"echoForm", "POST", []string{"echo", "form"}},
 	{"echoMultipart", "POST", []string{"echo", "multipart"}}, {"echoStream", "POST", []string{"echo", "stream"}}, {"echoWild", "POST", []string{"echo", "wild"}},
 	{"echoParams", "GET", []string{"echo", "params", "*", "*", "*"}}, {"echoShapes", "POST", []string{"echo", "shapes", "*"}}, {"variants", "POST", []string{"variants"}},
-	{"secure", "GET", []string{"secure"}}, {"secure2", "GET", []string{"secure2"}},
+	{"secure", "GET", []string{"secure"}}, {"secure2", "GET", []string{"secure2"}}, {"echoSeg", "GET", []string{"echo", "seg", "*", "*"}},
 }
 
 // worldRoute says which operation a raw (escaped) path designates: segments are what lies between literal
@@ -865,7 +865,7 @@ func oracleC15(r *CallRecord) []problem {
 			if raw, ok := worldPathAfter(r.Call.Op, seg, r.Call.Fault.Val); ok {
 				op, method := worldRoute(raw)
 				sent := "POST"
-				if r.Call.Op == "echoParams" || r.Call.Op == "secure" || r.Call.Op == "secure2" {
+				if r.Call.Op == "echoParams" || r.Call.Op == "secure" || r.Call.Op == "secure2" || r.Call.Op == "echoSeg" {
 					sent = "GET"
 				}
 				switch {
@@ -923,11 +923,11 @@ func oracleC15(r *CallRecord) []problem {
 			if s.HandlerCalls != 0 || (s.Status != 400 && s.Status != 401) {
 				add("a lost required parameter is answered 400", fmt.Sprintf("delivery %d: status %d, handler calls %d", i, s.Status, s.HandlerCalls))
 			}
-		case k == "ctype" && r.Call.Op != "secure" && r.Call.Op != "secure2" && r.Call.Op != "echoParams" && (r.Call.Fault.Arg == "text/weird" || r.Call.Fault.Arg == ";;;" || r.Call.Fault.Arg == "" || !strings.Contains(r.Call.Fault.Arg, "/")):
+		case k == "ctype" && r.Call.Op != "secure" && r.Call.Op != "secure2" && r.Call.Op != "echoParams" && r.Call.Op != "echoSeg" && (r.Call.Fault.Arg == "text/weird" || r.Call.Fault.Arg == ";;;" || r.Call.Fault.Arg == "" || !strings.Contains(r.Call.Fault.Arg, "/")):
 			if s.HandlerCalls != 0 || (s.Status != 415 && s.Status != 400) {
 				add("a wrong or missing content type is answered 415/400", fmt.Sprintf("delivery %d: status %d, handler calls %d", i, s.Status, s.HandlerCalls))
 			}
-		case k == "method" && r.Call.Fault.Arg != "POST" && r.Call.Op != "secure" && r.Call.Op != "secure2" && r.Call.Op != "echoParams":
+		case k == "method" && r.Call.Fault.Arg != "POST" && r.Call.Op != "secure" && r.Call.Op != "secure2" && r.Call.Op != "echoParams" && r.Call.Op != "echoSeg":
 			if s.HandlerCalls != 0 || s.Status != 405 || s.Allow != "POST" {
 				add("an undefined method is answered 405 with Allow", fmt.Sprintf("delivery %d: status %d, Allow %q, handler calls %d", i, s.Status, s.Allow, s.HandlerCalls))
 			}
